@@ -7,14 +7,14 @@ def m(name, rule, key, file, old, new):
 
 CASES = [
     m('only-indentation-handled', 'R1', 'verify:escapes:SyntaxError', SRC,
-      "    except SyntaxError as e:\n        syntax_error(e.lineno, e.filename, code, e.offset, e,\n                     sys.exc_info(), report=report, muted=muted, enhance=enhance)\n        report[TOOL_NAME]['success'] = False\n        report[TOOL_NAME]['ast'] = ast.parse(\"\")\n", ""),
+      "    except SyntaxError as e:\n        if e.filename is None:\n            # CPython gives no filename for some errors (e.g., null bytes in the source)\n            e.filename = filename\n        syntax_error(e.lineno, e.filename, code, e.offset, e,\n                     sys.exc_info(), report=report, muted=muted, enhance=enhance)\n        report[TOOL_NAME]['success'] = False\n        report[TOOL_NAME]['ast'] = ast.parse(\"\")\n", ""),
     m('parse-hoisted-out-of-try', 'R1', 'verify:escapes:', SRC,
       "    try:\n        parsed = ast.parse(code, filename)\n        report[TOOL_NAME]['ast'] = parsed\n", "    parsed = ast.parse(code, filename)\n    try:\n        report[TOOL_NAME]['ast'] = parsed\n"),
     m('syntax-error-also-in-else', 'R3', 'verify:constructs-once[accepted', SRC,
       "    else:\n        report[TOOL_NAME]['success'] = True\n    return report[TOOL_NAME]['success']", "    else:\n        report[TOOL_NAME]['success'] = True\n        if muted:\n            syntax_error(1, filename, code, 0, None, None, report=report)\n    return report[TOOL_NAME]['success']"),
     m('handler-conditional-feedback', 'R3', 'verify:constructs-once[SyntaxError', SRC,
-      "    except SyntaxError as e:\n        syntax_error(e.lineno, e.filename, code, e.offset, e,\n                     sys.exc_info(), report=report, muted=muted, enhance=enhance)",
-      "    except SyntaxError as e:\n        if enhance:\n            syntax_error(e.lineno, e.filename, code, e.offset, e,\n                         sys.exc_info(), report=report, muted=muted, enhance=enhance)"),
+      "            e.filename = filename\n        syntax_error(e.lineno, e.filename, code, e.offset, e,\n                     sys.exc_info(), report=report, muted=muted, enhance=enhance)",
+      "            e.filename = filename\n        if enhance:\n            syntax_error(e.lineno, e.filename, code, e.offset, e,\n                         sys.exc_info(), report=report, muted=muted, enhance=enhance)"),
     m('handler-success-true', 'R3', 'verify:success[SyntaxError', SRC,
       "e,\n                     sys.exc_info(), report=report, muted=muted, enhance=enhance)\n        report[TOOL_NAME]['success'] = False", "e,\n                     sys.exc_info(), report=report, muted=muted, enhance=enhance)\n        report[TOOL_NAME]['success'] = True"),
     m('wrong-line-argument', 'R3', 'args', SRC,
@@ -32,11 +32,27 @@ CASES = [
       "        report[TOOL_NAME]['ast'] = parsed\n", "        report[TOOL_NAME]['ast'] = ast.parse('')\n"),
     m('blank-test-dropped', 'R5', 'verify:blank', SRC,
       "    if code.strip() == '':\n        blank_source(", "    if code == '':\n        blank_source("),
+    # fix 76b227e: the null-byte SyntaxError carries no file name
+    m('revert-fix-missing-filename', 'R9', 'null-byte-error:HtmlFormatter', SRC,
+      "        if e.filename is None:\n            # CPython gives no filename for some errors (e.g., null bytes in the source)\n            e.filename = filename\n", ""),
+    m('missing-filename-only-passed-not-stored', 'R9', 'null-byte-error:TerminalFormatter', SRC,
+      "        if e.filename is None:\n            # CPython gives no filename for some errors (e.g., null bytes in the source)\n            e.filename = filename\n        syntax_error(e.lineno, e.filename, code,", "        syntax_error(e.lineno, e.filename or filename, code,"),
+    # the property says "never raises", not where the missing name is supplied: formatters that render whatever they get
+    dict(name='twin-formatters-tolerate-missing-filename', kind='twin', edits=[
+        dict(file=SRC, old="        if e.filename is None:\n            # CPython gives no filename for some errors (e.g., null bytes in the source)\n            e.filename = filename\n", new=""),
+        dict(file='pedal/core/formatting.py', old="        return self.html_code(filename, \"pedal-filename\")",
+             new="        return self.html_code(str(filename), \"pedal-filename\")"),
+        dict(file='pedal/environments/terminal.py', old="    def filename(self, filename):\n",
+             new="    def filename(self, filename):\n        filename = str(filename)\n")]),
+    dict(name='twin-missing-filename-filled-by-helper', kind='twin', edits=[
+        dict(file=SRC, old="        if e.filename is None:\n            # CPython gives no filename for some errors (e.g., null bytes in the source)\n            e.filename = filename\n", new="        _name_the_file(e, filename)\n"),
+        dict(file=SRC, old="# Legacy verify_section; now done by verify since its aware of sections\n",
+             new="def _name_the_file(error, filename):\n    if getattr(error, 'filename', None) is None:\n        error.filename = filename\n\n\n# Legacy verify_section; now done by verify since its aware of sections\n")]),
     m('revert-fix-line-default', 'R2', 'syntax_error.__init__', SF,
       "        if line is None:\n            # CPython gives no position for some errors (e.g., null bytes in the source)\n            line = 1\n", ""),
     m('revert-fix-offset-default', 'R2', 'build_traceback', UX,
       "            offset = self.exception.offset if self.exception.offset is not None else 1\n", "            offset = self.exception.offset\n"),
-    m('revert-fix-frame-lineno', 'R2', 'FakeFrame', UX,
+    m('revert-fix-frame-lineno', 'R2', 'build_traceback:made-up-frame', UX,
       "                                   lineno, None, offset-1, end_lineno, end_offset-1)", "                                   self.exception.lineno, None, offset-1, end_lineno, end_offset-1)"),
     m('line-without-offset', 'R6', 'lineno=line+offset', SF,
       "        fields = {'lineno': line + line_offset,", "        fields = {'lineno': line,"),
